@@ -117,6 +117,9 @@ def etree_iter_strings(elem: Union[DocumentProtocol, ElementProtocol],
 
         for e in elem.iter():
             if callable(e.tag):
+                # comments and processing instructions: only the tail is element content
+                if e.tail is not None:
+                    yield e.tail.strip() if e in root else e.tail
                 continue
             if e.text is not None:
                 yield e.text.strip() if e is root else e.text
@@ -125,6 +128,9 @@ def etree_iter_strings(elem: Union[DocumentProtocol, ElementProtocol],
     else:
         for e in elem.iter():
             if callable(e.tag):
+                # comments and processing instructions: only the tail is element content
+                if e.tail is not None and e is not elem:
+                    yield e.tail
                 continue
             if e.text is not None:
                 yield e.text
